@@ -85,6 +85,47 @@ def wait_probe(chk, d, quick):
                     break
 
 
+def high_probe(chk, d):
+    """Accesses at effective addresses around and above 2^31 on a memory larger than 2 GiB under both byte-order settings."""
+    outs = {}
+    for tag, defs in (('le', []), ('be', ['-DWASM_ENDIAN=1'])):
+        exe = os.path.join(d, 'highprobe-' + tag)
+        r = env.run(['gcc', '-O1', '-g', '-w', '-DWASM_THREADS_PTHREADS'] + defs + ['-I', e2e.base_include(), os.path.join(env.VERIF, 'harness', 'endian_high_probe.c'),
+                     '-o', exe, '-lpthread', '-lm'], timeout=300)
+        if r.rc != 0:
+            chk.violation('C19:compile:high-probe:%s' % tag, 'high-address probe does not build (%s): %s' % (tag, r.err[-1200:]))
+            return
+        outs[tag] = env.run([exe, str(env.SEED)], timeout=300)
+    rl, rb = outs['le'], outs['be']
+    files = {'le.txt': rl.out[-60000:], 'be.txt': rb.out[-60000:], 'stderr.txt': (rl.err + rb.err)[-2000:]}
+    if 'SKIP' in rl.out or 'SKIP' in rb.out:
+        chk.observe('high_address_probe', 'skipped: host cannot reserve the memory', 'set')
+        return
+    if rl.rc != 0 or 'DONE' not in rl.out:
+        chk.inconclusive('high-address probe failed on the host-order build: rc %s' % rl.rc)
+        return
+    if rb.rc != 0 or 'DONE' not in rb.out:
+        last = [l for l in rb.out.splitlines() if l.startswith('A ')][-1:] or ['']
+        chk.violation('C19:high-address:crash', 'forced big-endian build dies at an address >= 2^31 (rc %s) after "%s"; the host-order build completes' % (rb.rc, last[0][:80]), files)
+        return
+    la = [l.split() for l in rl.out.splitlines() if l.startswith('A ')]
+    ba = [l.split() for l in rb.out.splitlines() if l.startswith('A ')]
+    chk.observe('high_address_probe', 'ran %d accesses' % len(la), 'set')
+    if len(la) != len(ba):
+        chk.violation('C19:high-address:mismatch', 'different number of probe lines', files)
+        return
+    for x, y in zip(la, ba):
+        chk.ev()
+        chk.distinct(('high', x[1], x[2]))
+        w = int(x[3])
+        if x[4] != y[4]:
+            chk.violation('C19:high-address:%s:value' % x[2], '%s at address 0x%s: big-endian build returns 0x%s, little-endian build 0x%s' % (x[2], x[1], y[4], x[4]), files)
+            return
+        if bytes.fromhex(y[5]) != bytes.fromhex(x[5])[::-1]:
+            chk.violation('C19:high-address:%s:bytes' % x[2], '%s at address 0x%s: big-endian build leaves %s, expected the %d-byte reversal of %s' % (x[2], x[1], y[5], w, x[5]), files)
+            return
+
+
 def main(chk):
     quick = chk.tier == 'quick'
     d = env.subdir('c19')
@@ -165,6 +206,7 @@ def main(chk):
                 chk.violation('C19:bufferRead:big-endian', 'immediates reader on the forced-BE build returns f32=%#x f64=%#x, expected the big-endian reading %#x / %#x' % (
                     b_be['f32'], b_be['f64'], bswap(x & 0xffffffff, 32), bswap(x, 64)), files)
     wait_probe(chk, d, quick)
+    high_probe(chk, d)
     chk.observe('flavours_probed', 14 + 9 + 14 + 42 + 7, 'set')
     chk.sample({'case': 'i64_atomic_rmw16_add_u on window X (BE build) vs on R(X) (LE build): same return value, after-windows related by one 2-byte reversal'})
     # ---- module level: translated histories must give the same call results on both builds (thorough, cheap enough for quick too)
